@@ -156,9 +156,16 @@ int select(int nfds, fd_set *r, fd_set *w, fd_set *e, struct timeval *tv) {
 }
 
 /* fault injection on the server side of one connection -------------- */
+/* these definitions replace ASan's own read/write interceptors: keep their buffer check */
+extern void *__asan_region_is_poisoned(void *beg, size_t size);
+static void asan_check(const void *buf, size_t n, int is_write) {
+  void *bad = (buf && n) ? __asan_region_is_poisoned((void *)buf, n) : NULL;
+  if (bad) { if (is_write) *(volatile char *)bad = 0; else { volatile char c = *(volatile char *)bad; (void)c; } }
+}
 ssize_t read(int fd, void *buf, size_t n) {
   static ssize_t (*real)(int, void *, size_t);
   if (!real) real = (ssize_t (*)(int, void *, size_t))dlsym(RTLD_NEXT, "read");
+  if (in_server) asan_check(buf, n, 1);
   if (in_server) {
     hconn *h = by_srvfd(fd);
     if (h && h->fault == F_RD_EINTR) { h->fault = F_NONE; errno = EINTR; return -1; }
@@ -169,6 +176,7 @@ ssize_t read(int fd, void *buf, size_t n) {
 ssize_t write(int fd, const void *buf, size_t n) {
   static ssize_t (*real)(int, const void *, size_t);
   if (!real) real = (ssize_t (*)(int, const void *, size_t))dlsym(RTLD_NEXT, "write");
+  if (in_server) asan_check(buf, n, 0);
   if (in_server) {
     hconn *h = by_srvfd(fd);
     if (h && h->fault == F_WR_EINTR) { h->fault = F_NONE; errno = EINTR; return -1; }
